@@ -28,8 +28,10 @@ Nest == {LCompound(RE.conn["Product"], <<y, LAtom("", "a")>>) : y \in Sample(Fla
 TermsL == Flat \cup Nest
 
 FloatPool == {"0.5", "1", "2", "-0.5", "NaN", "inf", "1e-1", "", "abc", "0.5.5", "-0", "+0.5", ".5", "5.", "1e400", " 0.5", "1_0", "٣"}
-FloatLists == {<<>>} \cup {<<a>> : a \in FloatPool} \cup {<<"0.5", a>> : a \in FloatPool} \cup {<<a, "0.5", "1">> : a \in {"0.5", "2", "abc"}}
-              \cup {<<"1", "1", a>> : a \in {"2", "abc", "0.5"}} \cup {<<"1", "1", "1", a>> : a \in {"2", "abc"}}
+\* every member of the pool at every position of lists of one to four entries (the other entries valid)
+FloatLists == {<<>>} \cup {<<a>> : a \in FloatPool} \cup {<<"0.5", a>> : a \in FloatPool} \cup {<<a, "0.5">> : a \in FloatPool}
+              \cup {<<a, "0.5", "1">> : a \in FloatPool} \cup {<<"0.5", a, "1">> : a \in FloatPool} \cup {<<"1", "1", a>> : a \in FloatPool}
+              \cup {<<"1", "1", "1", a>> : a \in FloatPool}
 StampTexts == {"", RE.stamp_l \o RE.stamp["Past"] \o RE.stamp_r, RE.stamp_l \o RE.stamp["Fixed"] \o "-7" \o RE.stamp_r,
                RE.stamp_l \o RE.stamp["Fixed"] \o RE.stamp_r, RE.stamp_l \o RE.stamp["Fixed"] \o "99999999999999999999" \o RE.stamp_r,
                RE.stamp_l \o RE.stamp["Fixed"] \o "1-2" \o RE.stamp_r, "abc", RE.stamp_l, RE.stamp_l \o RE.stamp["Present"], "::"}
@@ -38,7 +40,7 @@ SentTerms == {LAtom("", "a"), LCompound(RE.conn["ImageExtension"], <<LAtom("", "
 SentencesL == {[term |-> t, punctuation |-> p, stamp |-> st, truth |-> tr] : t \in SentTerms, p \in PunctTexts, st \in StampTexts, tr \in FloatLists}
 Wrapped == {[kind |-> "term", v |-> t] : t \in TermsL}
            \cup {[kind |-> "sentence", v |-> s] : s \in (IF TIER = "thorough" THEN SentencesL ELSE Sample(SentencesL, 5, SEED))}
-           \cup {[kind |-> "task", v |-> [budget |-> b, sentence |-> s]] : b \in Sample(FloatLists, 4, SEED),
+           \cup {[kind |-> "task", v |-> [budget |-> b, sentence |-> s]] : b \in Sample(FloatLists, 2, SEED),
                  s \in Sample(SentencesL, IF TIER = "thorough" THEN 17 ELSE 97, SEED)}
 
 Init == mode = "seed" /\ x \in 1..SEEDS
